@@ -3,10 +3,12 @@ import json
 
 import nodeops
 import searches
+import c08
+import c15
 
 REGISTRY = {'C01': nodeops, 'C02': nodeops, 'C03': nodeops,
-            'C04': searches, 'C05': searches, 'C06': searches, 'C07': searches, 'C09': searches, 'C10': searches}
-EVALUATE = {nodeops: nodeops.evaluate_ctx, searches: searches.evaluate}
+            'C04': searches, 'C05': searches, 'C06': searches, 'C07': searches, 'C09': searches, 'C10': searches, 'C08': c08, 'C15': c15}
+EVALUATE = {nodeops: nodeops.evaluate_ctx, searches: searches.evaluate, c08: c08.evaluate, c15: c15.evaluate}
 
 
 def replay(prop, path):
@@ -14,7 +16,8 @@ def replay(prop, path):
     import runner
     d = json.load(open(path))
     native = runner.Native(hooks=getattr(REGISTRY[prop], 'HOOKS', False))
-    obs = native.run([d['scenario']])[0]
+    mod0 = REGISTRY[prop]
+    obs = mod0.natrun(native, d['scenario']) if hasattr(mod0, 'natrun') else native.run([d['scenario']])[0]
     import scheck
     mod = REGISTRY[prop]
     bad = scheck.native_evaluator(prop, EVALUATE[mod])({'scen': d['scenario']}, obs)
